@@ -592,6 +592,7 @@ class Gen:
         self.expect["types"]["::".join(t.path)] = dict(
             fields=fields, size=total, align=eff_align, packed=packed, own_vftable=own_vftable,
             has_vftable=has_vftable, slots=[(d["name"] if d else None) for d in (vslots or [])],
+            slot_descs=[({k: v for k, v in d.items() if k != "text"} if d else None) for d in (vslots or [])],
             declared_vft=declare_vft, copyable=copyable, cloneable=cloneable, defaultable=defaultable,
             singleton=singleton, pub=pub, doc=doc_lines, impls=impl_desc,
             bases=["::".join(b.path) for b in bases])
